@@ -57,10 +57,10 @@ def generate(rng, tier, n):
         cases.append({"replicas": replicas, "custom": custom, "ops": ops, "probes": probes})
     if tier == "thorough":
         # statistical clause, as a TEST: fixed membership configurations (murmur3 is deterministic, so the
-        # outcome is too, up to the ~2 % sampling noise of the probe keys); tolerance 50 % of the weight share
+        # outcome is too, up to the ~4 % sampling noise of the probe keys); tolerance 50 % of the weight share
         for weights in ([100, 100, 100, 100], [100, 50, 100, 50], [100, 100, 50], [60, 80, 100, 100, 70], [100, 100]):
             ops = [{"op": "addw", "node": i, "arg": w} for i, w in enumerate(weights)]
-            probes = ["bal%d-%d" % (rng.randrange(10 ** 9), i) for i in range(6000)]
+            probes = ["bal%d-%d" % (rng.randrange(10 ** 9), i) for i in range(3000)]
             cases.append({"replicas": 100, "custom": True, "ops": ops, "probes": probes, "balance_tol": 50})
     return cases
 
